@@ -14,4 +14,33 @@ IsCap(c) == c >= 65 /\ c <= 90
 HasAdjacentCapitals(ncp) == \E k \in 1..(Len(ncp) - 1) : IsCap(ncp[k]) /\ IsCap(ncp[k + 1])
 KF_C05_AcronymFieldName(fields, val) ==
   \E j \in DOMAIN fields : HasAdjacentCapitals(fields[j].ncp) /\ val[fields[j].name].k # "unset"
+
+\* ---- C19 ----
+\* words of a snake_case name (split at '_', empty pieces dropped)
+RECURSIVE SplitAt(_, _, _, _)
+SplitAt(s, p, cur, acc) ==
+  IF p > Len(s) THEN (IF cur = <<>> THEN acc ELSE Append(acc, cur))
+  ELSE IF s[p] = 95 THEN SplitAt(s, p + 1, <<>>, IF cur = <<>> THEN acc ELSE Append(acc, cur))
+  ELSE SplitAt(s, p + 1, Append(cur, s[p]), acc)
+Words(s) == SplitAt(s, 1, <<>>, <<>>)
+IsDig(c) == c >= 48 /\ c <= 57
+IsLow(c) == c >= 97 /\ c <= 122
+IsAlpha(c) == IsLow(c) \/ IsCap(c)
+\* The camelCase JSON key of a field loses a word boundary, so from_dict maps it to another (non-existent) field and the
+\* value is silently dropped: (a) a word after the first starts with a digit (address_line_1 -> addressLine1 -> address_line1),
+\* or (b) a one-letter word after the first is followed by a word that is one letter or has no lower-case second character
+\* (x_y_z -> xYZ -> x_yz).  Input: the Python field name.
+KF_C19_CamelKeyLosesWordBoundary(py) ==
+  LET ws == Words(py) IN
+  \/ \E k \in 2..Len(ws) : IsDig(ws[k][1])
+  \/ \E k \in 2..(Len(ws) - 1) : Len(ws[k]) = 1 /\ IsAlpha(ws[k][1]) /\ IsAlpha(ws[k + 1][1])
+                                  /\ (Len(ws[k + 1]) = 1 \/ ~IsLow(ws[k + 1][2]))
+\* pascal_case is not idempotent on a class name with a run of capitals (acronyms, adjacent one-letter words):
+\* a_b -> AB -> Ab.  Input: the class name; a run of >= 2 capitals not followed by a lower-case letter, or of >= 3 capitals.
+RECURSIVE CapRunEnd(_, _)
+CapRunEnd(s, p) == IF p <= Len(s) /\ IsCap(s[p]) THEN CapRunEnd(s, p + 1) ELSE p
+KF_C19_PascalNotIdempotentOnCapitalRuns(c) ==
+  \E p \in 1..Len(c) : IsCap(c[p]) /\ (p = 1 \/ ~IsCap(c[p - 1])) /\
+     LET e == CapRunEnd(c, p)  n == e - p IN
+     (n >= 2 /\ ~(e <= Len(c) /\ IsLow(c[e]))) \/ n >= 3
 =============================================================================
